@@ -810,8 +810,9 @@ impl Program {
         // result. Thus the true design size is not needed. Using this dummy avoids having
         // to plumb in the real design size into this function.
         let dummy_design_size = FixWord::ONE * 10;
+        // TFtoPL reports infinite loops that go through "phantom" ligatures, so we do too.
         let (_, errors) =
-            super::CompiledProgram::compile(self, dummy_design_size, kerns, entrypoints);
+            super::compiler::compile(self, dummy_design_size, kerns, &entrypoints, true);
         for err in errors {
             warnings.push(ValidationWarning::InfiniteLoop(err));
         }
